@@ -3,13 +3,115 @@
 import json, os
 ROOT = os.path.dirname(os.path.abspath(__file__))
 
+SIM_NOTE = ('Trusted: the simnet transport/process model (reliable per-channel FIFO, EOF on close, process = thread group, virtual sleep), '
+            'the task-tree interpreter in vlib/simnet/workloads.py and the offline checkers in vlib/simnet/scen.py. '
+            'All runtime classes, handlers, tables, pickling and both worker threads are /repo\'s own code. Schedules not executed are not covered.')
+
 CHECKS = {
     # id: (level category, technique, level text, level note, engine, design_ref)
+    'C01': ('exploration',
+            'end-to-end runtime monitor of bqskit.compile(): independent isometry check under the reported mappings (refsim) + measurement relocation check',
+            'Generated circuits x machine models x optimization levels are compiled by the real compile() on real runtime processes; an independent simulator decides the mapped-equivalence statement with a budget proportional to synthesis_epsilon and checks measurement placeholders. Held = no violation on the executed cases (counts and branches taken are in the evidence).',
+            'Trusted: vlib/refsim.py (self-checking numpy simulator), each gate\'s own get_unitary (C18 covers those), the budget rule of DESIGN 2.2. Levels 3-4 only on small inputs.',
+            'compile-driver', 'DESIGN.md 3 C01'),
+    'C02': ('exploration',
+            'independent executability checker (width, radixes, native gates, coupling) on compile() outputs + differential test of MachineModel.is_compatible',
+            'compile() outputs for circuit/unitary/state/state-system inputs over varied models are checked by an independent compatibility checker, and MachineModel.is_compatible is compared with it on compiled outputs, random circuits and single-step corruptions with identity/monotone/non-monotone placements.',
+            'Trusted: the independent checker in vlib/compilechk.py. Inputs limited to small widths so many models are visited.',
+            'compile-driver', 'DESIGN.md 3 C02'),
+    'C03': ('exploration',
+            'runtime monitor of direct synthesis: distance of the compiled circuit to the target unitary / state / state system recomputed by refsim; list-order check',
+            'Structured and Haar-random targets (1-3 qudits quick, up to 4 thorough, qubits and qutrits) are compiled by the real compile(); the result is compared with the target in the code\'s own metric within the synthesis budget; list inputs are checked for length and order.',
+            'Trusted: vlib/refsim.py, the budget rule. Levels 3-4 only on tiny inputs in quick.',
+            'compile-driver', 'DESIGN.md 3 C03'),
+    'C04': ('exploration',
+            'history monitor: step-wise list-of-cycles reference model vs the real Circuit after every public editing call; refsim unitary cross-check; exhaustive short histories',
+            'Random editing histories (10-80 calls, 2-7 qudits, arguments drawn from the current state, 10% invalid) and all short histories over reduced alphabets are executed on the real Circuit; before each call the model reads the grid through the public read API, predicts the per-qudit operation sequences from the documented meaning, compares after the call and re-synchronises.',
+            'Trusted: the reference model in vlib/history.py (documented-meaning definitions), refsim. Cycle-layout freedom is never compared.',
+            'history', 'DESIGN.md 3 C04'),
+    'C05': ('exploration',
+            'invariant monitor after every editing call: grid = dependency links = counters = iteration, via the public read API; internal-error rule for valid calls',
+            'Same histories as C04; after every call (raising or not) the views of the circuit are recomputed from the grid and compared with next/prev/front/rear, counters, coupling graph, depth and iteration orders; an exception of internal type on model-valid arguments is a violation.',
+            'Trusted: the invariant definitions in vlib/history.py. Only public read API is used.',
+            'history', 'DESIGN.md 3 C05'),
+    'C06': ('exploration',
+            'differential runtime monitor: Circuit simulation, gradients, parameter-vector API and restricted iteration vs an independent numpy simulator and finite differences',
+            'Generated circuits (mixed radixes 2-4, permuted/non-adjacent locations, nested CircuitGates, frozen parameters, circuits after structural edits) are evaluated by the real get_unitary/get_statevector/get_grad/param API and compared with refsim\'s ordered product, central differences and brute-force grid filters.',
+            'Trusted: vlib/refsim.py (cross-checks itself with an explicit Kronecker implementation), numpy.',
+            'differential', 'DESIGN.md 3 C06'),
+    'C07': ('exploration',
+            'deterministic simulation of the real runtime classes (in-memory transport, serialized seeded scheduler, sys.monitoring line-level pre-emption of worker threads) + offline history checker with unique task tags',
+            'The unmodified Worker/AttachedServer/DetachedServer/Manager/Compiler classes run task trees (submit/map/await/next) under seeded delivery orders, random line-level pre-emption and a systematic single pre-emption at every (thread,function,line,occurrence) of the await/result/step paths; the recorded history is checked for result integrity, next() batch disjointness/completeness, exactly-once execution, no spurious error and progress (quiescence with every client answered). Held = no violation on the executed schedules.',
+            SIM_NOTE, 'simnet', 'DESIGN.md 2.5, 3 C07'),
+    'C08': ('exploration',
+            'pass-level runtime monitor through a real Compiler: unfold of the partitioned circuit vs per-qudit operation sequences of the input; block width; placeholder position; refsim unitary',
+            'Generated circuits (width 2-20, 1/2/3-qudit gates, barriers, measurements, resets, pre-blocked inputs) are partitioned by every partitioner on real runtime workers; the output is checked for block width, exact per-qudit operation sequences after unfolding, placeholders staying top-level and in place, and unitary equality for small widths.',
+            'Trusted: per-qudit sequence comparison in props/c08.py, refsim.',
+            'pass-driver', 'DESIGN.md 3 C08'),
+    'C09': ('exploration',
+            'translation validation of mapping by swap stripping + refsim isometry under the recorded mappings + coupling check, through a real Compiler',
+            'Placement/layout/routing workflows (SABRE and PAM) run on generated circuits and connected graphs; the output is walked maintaining the permutation implied by swaps and must reproduce the input per logical qudit from initial_mapping to final_mapping; all multi-qudit operations must sit on connected physical qudits; mapped_cost must be within floor/budget.',
+            'Trusted: the swap-stripping walker in vlib/mapchk.py, refsim. Inputs to the walker contain no SwapGate of their own.',
+            'pass-driver', 'DESIGN.md 3 C09'),
+    'C10': ('exploration',
+            'per-pass contract monitor through a real Compiler: refsim distance before/after within the pass\'s own threshold budget + advertised postconditions; catalogue completeness check',
+            'Every rewriting pass exported by bqskit.passes is run on inputs from its domain generator with its behaviour-changing options; unitary preservation is exact for structural/rule passes and within the success-threshold budget for numerical ones; postconditions (source gate gone, only target gates introduced, no gate-count increase) are checked. A pass in neither the catalogue nor the explicit exclusion list makes the check inconclusive.',
+            'Trusted: vlib/passcat.py contracts (read off each pass\'s documentation), refsim.',
+            'pass-driver', 'DESIGN.md 3 C10'),
+    'C11': ('exploration',
+            'instrumented-body trace monitor: ForEachBlockPass and control-flow passes run with recording bodies/predicates on real workers; trace vs a small interpreter of the documented semantics; write-back model; error-bound inequality',
+            'Partitioned circuits with scripted filters and instrumented bodies (identity, equivalent, shrinking, growing, perturbing, failing) run through the real ForEachBlockPass and control passes; recorded fingerprints, write-back positions, replaced flags, error bound and PassData restoration are compared with the specification interpreter.',
+            'Trusted: the interpreter in props/c11.py, workloads in vlib/workloads.py.',
+            'pass-driver', 'DESIGN.md 3 C11'),
+    'C12': ('exploration',
+            'deterministic simulation of the real runtime + history/table checker: no delivery after cancel, no descendant start after every worker processed the CANCEL, tables empty at quiescence, bystanders correct',
+            'Task trees with in-task cancels at every kind of point, client cancel(task_id), client close()/abrupt death with work in flight, with bystander compilations, under seeded delivery orders and line-level pre-emption; at every quiescent point the tables of every worker/manager/server are read and must hold nothing of cancelled or finished work.',
+            SIM_NOTE + ' The tombstone set of cancelled ids and id->connection retention while a client stays connected are excluded, as the statement does.',
+            'simnet', 'DESIGN.md 3 C12'),
+    'C13': ('exploration',
+            'deterministic simulation of the real runtime + per-task client state machine, error-message propagation check, isolation check and liveness probe by a fresh client',
+            'Trees with a raising body at every position class, all request sequences up to the length bound over {status,result,cancel} x {own id, never-issued id, another client\'s id} and random longer histories with 2-4 clients are issued by the real Compiler methods against a simulated detached server; replies must fit the state machine, errors must carry the body\'s message, other clients\' tasks must be undisturbed and a fresh client must still be served afterwards.',
+            SIM_NOTE, 'simnet', 'DESIGN.md 3 C13'),
+    'C14': ('fault_enumeration',
+            'crash-point enumeration in the deterministic simulation (kill each worker/manager after every step of base schedules, plus double crashes) + real-process SIGKILL injection with a stable-hang detector',
+            'For each base execution every worker and manager is killed after step i for every i (strided to a cap) between "runtime up" and the end; client outcome must be an exception or the complete correct result, quiescence with a blocked client is a hang, and survivors must terminate. A real-process tier kills real workers/managers (self-SIGKILL inside a chosen task body phase, or SIGKILL from outside while busy/idle) and decides hangs by "call not returned and every surviving process asleep with CPU time not advancing".',
+            SIM_NOTE + ' Real-process tier: wall-clock only ever yields inconclusive; a hang needs all processes in state S with unchanged CPU time over three samples.',
+            'simnet+procnet', 'DESIGN.md 3 C14'),
+    'C15': ('exploration',
+            'deterministic simulation of the real runtime + counter invariants read between handlers after every scheduler step, exactly-once assignment from the message history, quiescent-belief comparison with ground truth',
+            'Wide-map task trees under starvation-heavy delivery orders (forcing WAITING to cross SUBMIT_BATCH) on 1-4 workers / 1-3 managers; after every step the idle/num_tasks counters of every node parked in select() are checked for bounds; the history is checked for every task being delivered to exactly one worker; at quiescence a directly-managing boss must believe (0 tasks, idle) for every worker.',
+            SIM_NOTE, 'simnet', 'DESIGN.md 3 C15'),
+    'C16': ('exploration',
+            'round-trip monitor: ForkingPickler/dill round trip, copy() aliasing probe and become() field comparison through the public API on generated objects',
+            'Circuits reached by editing histories, every gate construction, models, PassData with every reserved key, nested workflows and runtime tasks are pickled through the transport\'s exact path and compared by public API (layout, params, unitary, hash/eq); copies are mutated to prove no shared mutable state; become() is compared field by field.',
+            'Trusted: the comparison functions in vlib/rtchk.py, refsim.',
+            'differential', 'DESIGN.md 3 C16'),
+    'C17': ('translation_validation',
+            'translation validation of the OpenQASM 2 front end: encode/decode round trip + differential against qiskit.qasm2.loads on grammar-generated programs (unitary up to bit order and global phase)',
+            'Every QASM-expressible gate is round-tripped; grammar-generated programs in the supported subset are parsed by BQSKit and by Qiskit and the unitaries compared (cost1 <= 1e-10); measurement/reset targets compared structurally; rejections of listed features and non-LangException crashes are violations.',
+            'Trusted: qiskit.qasm2 + qiskit Operator as the independent implementation, refsim.',
+            'differential', 'DESIGN.md 3 C17'),
+    'C18': ('exploration',
+            'gate contract monitor: unitarity, finite-difference gradients, inverse, calc_params/optimize, composed-gate algebra recomputed with numpy, eq/hash/caching, Qiskit matrices',
+            'Every concrete class exported by bqskit.ir.gates is constructed from recipes (radix 2-5, controls, powers, frozen subsets, embeddings, tags, locations) and evaluated at special and generic parameter vectors; each clause of the gate contract is checked against an independent computation. A class without a recipe makes the check inconclusive.',
+            'Trusted: vlib/gaterecipes.py reference matrices, numpy, qiskit.circuit.library matrices.',
+            'differential', 'DESIGN.md 3 C18'),
+    'C19': ('exploration',
+            'cost/instantiation monitor: native cost, residuals and gradients vs refsim + finite differences, native vs pure-Python gate path, recorded per-start results for the arg-min clause, structure/identity checks',
+            'Circuits over library, composed and pure-Python gates with unitary/state/state-system targets: the native Hilbert-Schmidt cost and residual objects are compared with the definition recomputed from the circuit\'s own unitary, gradients with central differences, native with Python evaluation; instantiate() is wrapped to record every start and the kept candidate must be the arg-min, the same object, with unchanged structure.',
+            'Trusted: vlib/refsim.py, vlib/numchk.py (cost/residual definitions identified on the unchanged tree and held fixed).',
+            'differential', 'DESIGN.md 3 C19'),
     'C20': ('exploration',
             'differential runtime monitor: brute-force graph/permutation/Kronecker definitions + networkx vs the real utilities, exhaustive over small labelled graphs',
             'Every public answer of CouplingGraph/PermutationMatrix/UnitaryMatrix/UnitaryBuilder is compared with an independent brute-force definition on all labelled graphs with <=5 (quick) / <=6 (thorough) vertices, all (partial) qudit locations on <=4/5 qudits with radix 2-4, and seeded random weighted graphs up to 12 vertices. Held = no disagreement on any executed input; exhaustive only for the stated small sub-space.',
             'Trusted: the brute-force definitions in props/c20.py, networkx, numpy. Self-distance of all_pairs_shortest_path and hop-count semantics of get_shortest_path_tree are taken from the implementation docs.',
-            'differential', 'DESIGN.md §3 C20'),
+            'differential', 'DESIGN.md 3 C20'),
+}
+
+# Properties whose check exists but is not yet claimed (must run clean on the
+# unchanged tree first). Keep this list current.
+UNCLAIMED = {
+    **{p: 'check built (props/%s.py) but not yet run clean on the unchanged tree in this session; not claimed until it is' % p.lower() for p in ['C01','C02','C03','C04','C05','C08','C09','C10','C11','C16','C17','C18','C19','C07','C12','C13','C14','C15']},
 }
 
 NOT_YET = {}
@@ -20,7 +122,7 @@ def main():
     na = []
     for p in props:
         pid = p['id']
-        if pid in CHECKS:
+        if pid in CHECKS and pid not in UNCLAIMED:
             cat, tech, text, note, engine, ref = CHECKS[pid]
             checks.append({
                 'property_id': pid,
@@ -34,7 +136,7 @@ def main():
                 'technique': tech,
             })
         else:
-            na.append({'property_id': pid, 'reason': NOT_YET.get(pid, 'check under construction in this build phase; not claimed until it runs clean on the unchanged tree')})
+            na.append({'property_id': pid, 'reason': UNCLAIMED.get(pid) or NOT_YET.get(pid, 'check under construction in this build phase; not claimed until it runs clean on the unchanged tree')})
     man = {
         'version': 1,
         'setup_cmd': './setup.sh',
@@ -46,7 +148,12 @@ def main():
             'add_only': True,
         },
         'engines': [
-            {'name': 'differential', 'path': 'vlib/refsim.py', 'serves_properties': ['C06', 'C18', 'C19', 'C20'], 'kind_free_text': 'independent numpy reference simulator / brute-force definitions used as runtime oracles'},
+            {'name': 'differential', 'path': 'vlib/refsim.py', 'serves_properties': ['C06', 'C16', 'C17', 'C18', 'C19', 'C20'], 'kind_free_text': 'independent numpy reference simulator / brute-force definitions / Qiskit used as runtime oracles on generated inputs'},
+            {'name': 'history', 'path': 'vlib/history.py', 'serves_properties': ['C04', 'C05'], 'kind_free_text': 'step-wise reference model + view invariants over generated and exhaustive editing histories of the real Circuit'},
+            {'name': 'pass-driver', 'path': 'vlib/compiledrv.py', 'serves_properties': ['C08', 'C09', 'C10', 'C11'], 'kind_free_text': 'real Compiler instances (attached runtime on private ports) running single passes/workflows; oracles on inputs/outputs and PassData'},
+            {'name': 'compile-driver', 'path': 'vlib/compilechk.py', 'serves_properties': ['C01', 'C02', 'C03'], 'kind_free_text': 'bqskit.compile() on real runtime processes per case in a subprocess with watchdog; end-to-end oracles; optional in-situ pass monitor injected into workers'},
+            {'name': 'simnet', 'path': 'vlib/simnet/', 'serves_properties': ['C07', 'C12', 'C13', 'C14', 'C15'], 'kind_free_text': 'deterministic in-process simulation of the real runtime classes: in-memory transport, serialized seeded scheduler, line-level pre-emption via sys.monitoring, crash injection, offline history checkers'},
+            {'name': 'procnet', 'path': 'vlib/procnet.py', 'serves_properties': ['C14'], 'kind_free_text': 'real runtime processes with real SIGKILL injection and a stable-hang detector'},
         ],
         'checks': checks,
         'not_applicable': na,
